@@ -398,12 +398,24 @@ func TestVerifC02(t *testing.T) {
 		case pi%25 == 7:
 			mr = 160 // long programs: match-set indices beyond the first bitmap words
 		}
+		giant := pi%100 == 50 // close to MAX_MATCH_SET_LEN: high bitmap words, long scans
+		if giant {
+			mr = 340
+		}
 		p := c01GenProg(r, stats, mr)
-		// outbound names → ids for the three extra groups (c01GenProg numbers by position in c01Outs)
 		if pi < 2 {
 			stats.Sample(p.text)
 		}
 		b, res := c02Build(log, p.text, name2id)
+		for giant && b == nil && mr > 100 { // too many match sets is a build error: shrink until it fits
+			stats.Inc("prog.giant_rejected_as_too_long")
+			mr -= 40
+			p = c01GenProg(r, stats, mr)
+			b, res = c02Build(log, p.text, name2id)
+		}
+		if giant && b != nil {
+			stats.Inc("prog.giant")
+		}
 		if b == nil {
 			stats.Inc("prog.build_failed")
 			stats.Sample("build failed: " + res)
